@@ -492,6 +492,18 @@ def r6(model: Model, rep: Report):
             continue
         a = apps[0]
         parent = call_arg(a, 0, "endpoint")
+        # ``root if leaf is None else leaf`` on a path that already decided the test is the chosen alternative
+        for _ in range(4):
+            if parent is not None and parent[0] == "ite":
+                if _implies(ev, p.cond, parent[1]):
+                    parent = parent[2]
+                    continue
+                if _implies(ev, p.cond, t_not(parent[1])):
+                    parent = parent[3]
+                    continue
+            break
+        while parent is not None and parent[0] == "var" and len(parent) == 4:
+            parent = parent[3]
         pointer = call_arg(a, 1, "pointer") or call_arg(a, 1, "pointers")
         node_ok = pointer is not None and ((pointer[0] == "new" and pointer[1] == "OperationGraphNode" and dict(pointer[2]).get("operation") == operation)
                                            or (pointer[0] == "list" and len(pointer[1]) == 1 and pointer[1][0][0] == "new"))
